@@ -8,6 +8,19 @@ from guppylang import guppy
 from guppylang.std.builtins import array, owned
 from guppylang.std.quantum import qubit, h, x, z, cx, cz
 
+
+@guppy
+def bump(ctr: array[int, 1]) -> int:
+    # index oracle: returns the counter and advances it (sem_call "bump" in Array.v)
+    v = ctr[0]
+    ctr[0] = v + 1
+    return v
+
+
+@guppy
+def poke(a: array[int, 1]) -> None:
+    a[0] = a[0] + 1000
+
 """
 SENTINEL_N = 777     # stands for a symbolic length `$k` in generic std functions
 
@@ -76,6 +89,37 @@ def programs(tier, rng):
             f"seq_unpack {n} {l} {r} {'true' if star else 'false'}",
             f"(outs_unpack_left {l} ++ {'[out_unpack_star ' + str(l) + ' ' + str(r) + ']' if star else '[]'} ++ outs_unpack_right {l} {r})",
             n=n, l=l, r=r, star=star, ty=ty)
+    # ---- nested subscripts (arrays of arrays), pure and EFFECTFUL index expressions
+    shapes = [(3, 2), (2, 3)] + ([(1, 1), (4, 2), (2, 5)] if thorough else [])
+    for n, m in shapes:
+        for g in (["h", "x"] if thorough else ["h"]):
+            G = g.upper()
+            add("lend_nested", f"@guppy\ndef FN(qs: array[array[qubit, {m}], {n}], i: int, j: int) -> None:\n    {g}(qs[i][j])\n",
+                f'seq_lend_nested {n} {m} (OGate "{G}")', "outs_lend_nested", n=n, m=m, leaf="qubit")
+            for c in sorted({0, m - 1}):
+                add("lend_nested_oracle", f"@guppy\ndef FN(qs: array[array[qubit, {m}], {n}], ctr: array[int, 1]) -> None:\n    {g}(qs[bump(ctr)][{c}])\n",
+                    f'seq_lend_nested_oracle {n} {m} (OGate "{G}") ({c})%Z', "outs_lend_nested_oracle", n=n, m=m, c=c, leaf="qubit")
+            add("lend_nested_inner_oracle", f"@guppy\ndef FN(qs: array[array[qubit, {m}], {n}], i: int, ctr: array[int, 1]) -> None:\n    {g}(qs[i][bump(ctr)])\n",
+                f'(IOp (OCall "bump" 2) [2] :: seq_lend_nested_at {n} {m} (OGate "{G}") 0 1 3 5)', "[20; 4]", n=n, m=m, leaf="qubit")
+            add("lend_nested_arith", f"@guppy\ndef FN(qs: array[array[qubit, {m}], {n}], i: int) -> None:\n    {g}(qs[i + 1][0])\n",
+                f'(IOp (OConst (CInt 0%Z)) [] :: IOp (OConst (CInt 1%Z)) [] :: IOp OIadd [1; 3] :: seq_lend_nested_at {n} {m} (OGate "{G}") 0 4 2 5)',
+                "[20]", n=n, m=m, leaf="qubit")
+        if m >= 2:
+            add("lend2_nested_oracle", f"@guppy\ndef FN(qs: array[array[qubit, {m}], {n}], ctr: array[int, 1]) -> None:\n    cx(qs[bump(ctr)][0], qs[bump(ctr)][{m - 1}])\n",
+                f'seq_lend2_nested_oracle {n} {m} "CX" 0%Z ({m - 1})%Z', "outs_lend2_nested_oracle", n=n, m=m, c0=0, c1=m - 1, leaf="qubit")
+        add("lend_nested_poke", f"@guppy\ndef FN(xs: array[array[array[int, 1], {m}], {n}], ctr: array[int, 1]) -> None:\n    poke(xs[bump(ctr)][{m - 1}])\n",
+            f'seq_lend_nested_oracle {n} {m} (OCall "poke" 1) ({m - 1})%Z', "outs_lend_nested_oracle", n=n, m=m, c=m - 1, leaf="intarr")
+        add("get_nested", f"@guppy\ndef FN(xs: array[array[int, {m}], {n}], i: int, j: int) -> int:\n    return xs[i][j]\n",
+            f"seq_get_nested {n} {m}", "outs_get_nested", n=n, m=m, leaf="int")
+        add("set_nested", f"@guppy\ndef FN(xs: array[array[int, {m}], {n}], i: int, j: int, v: int) -> None:\n    xs[i][j] = v\n",
+            f"seq_set_nested {n} {m}", "outs_set_nested", n=n, m=m, leaf="int")
+    for n in ([3] + ([1, 5] if thorough else [])):
+        add("use1_oracle", f"@guppy\ndef FN(qs: array[qubit, {n}], ctr: array[int, 1]) -> None:\n    h(qs[bump(ctr)])\n",
+            f'[IOp (OCall "bump" 2) [1]; IOp OItoUsize [2]; IOp (OBorrow {n}) [0; 4]; IOp (OGate "H") [6]; IOp OItoUsize [2]; IOp (OReturn {n}) [5; 8; 7]]',
+            "[9; 3]", n=n, leaf="qubit")
+    for (n, m, p_) in ([(3, 2, 2)] + ([(2, 1, 3)] if thorough else [])):
+        add("lend_nested3", f"@guppy\ndef FN(qs: array[array[array[qubit, {p_}], {m}], {n}], i: int, j: int, k: int) -> None:\n    h(qs[i][j][k])\n",
+            f'seq_lend_nested3 {n} {m} {p_} "H"', "outs_lend_nested3", n=n, m=m, p=p_, leaf="qubit")
     for n in ([2, 4] + ([1, 7] if thorough else [])):
         add("comp", f"@guppy\ndef FN(xs: array[int, {n}] @ owned) -> array[int, {n}]:\n    return array(x for x in xs)\n",
             f"seq_comp_step {n}", "outs_comp_step", n=n, ty="int")
@@ -159,6 +203,27 @@ def coq_seq(instrs, sym=None):
             return f"ICond {i['cond']} {coq_nats(i['others'])} [{cases}]"
         return f"IOp {coq_op(i['op'], sym)} {coq_nats(i['ins'])}"
     return "[" + "; ".join(go(i) for i in instrs) + "]"
+
+
+def index_events(region):
+    """for every get/set/borrow/return of a region (top level): which register feeds the index
+    operand, traced back through itousize to the int wire, and how often each call happens"""
+    k = region["n_inputs"]
+    src = {}
+    events, calls = [], {}
+    for i in region["instrs"]:
+        if "op" in i:
+            name = i["op"][0]
+            if name == "itousize":
+                src[k] = i["ins"][0]
+            elif name in ("get", "set", "borrow", "return"):
+                u = i["ins"][1]
+                events.append(f"{name}<{i['op'][1]}> array=r{i['ins'][0]} index=r{src.get(u, u)}")
+            elif name == "call":
+                calls[i["op"][1]] = calls.get(i["op"][1], 0) + 1
+                events.append(f"call {i['op'][1]} -> r{k}")
+        k += i["nout"]
+    return {"events": events, "calls": calls}
 
 
 def slice_region(n_inputs, instrs, roots, allowed):
@@ -317,6 +382,8 @@ def spec(family, params, inputs):
             new[count] = elt
             return [("arr", new), ("int", count + 1)]
         return PANIC
+    if family in NESTED:
+        return spec_nested(family, params, inputs)
     if family == "next_some":
         i, cells = inputs[0][1], inputs[1][1]
         if in_range(n, i) and cells[i] is not None:
@@ -327,8 +394,123 @@ def spec(family, params, inputs):
     raise ValueError(family)
 
 
+NESTED = {"lend_nested", "lend_nested_oracle", "lend_nested_inner_oracle", "lend_nested_arith", "lend2_nested_oracle",
+          "lend_nested_poke", "get_nested", "set_nested", "use1_oracle", "lend_nested3"}
+
+
+def wrap64(z):
+    return (z + M63) % (1 << 64) - M63
+
+
+def leaf_at(arr, dims, idx):
+    """the leaf addressed by the index path, or None when an index is out of range / a cell on the
+    path is lent"""
+    cur = arr
+    for d, i in zip(dims, idx):
+        if not in_range(d, i) or cur[1][i] is None:
+            return None
+        cur = cur[1][i]
+    return cur
+
+
+def replace_at(arr, idx, new):
+    if not idx:
+        return new
+    cells = list(arr[1])
+    cells[idx[0]] = replace_at(cells[idx[0]], idx[1:], new)
+    return ("arr", cells)
+
+
+def spec_nested(family, params, inputs):
+    """list semantics for nested subscripts.  Index expressions are evaluated ONCE each; the oracle
+    `bump` returns the counter value k and leaves k+1 (successive different values)."""
+    n, m = params["n"], params.get("m")
+    arr = inputs[0]
+    if family == "lend_nested":
+        return [arr] if leaf_at(arr, (n, m), (inputs[1][1], inputs[2][1])) is not None else PANIC
+    if family == "lend_nested3":
+        return [arr] if leaf_at(arr, (n, m, params["p"]), tuple(x[1] for x in inputs[1:4])) is not None else PANIC
+    if family in ("lend_nested_oracle", "lend_nested_poke"):
+        k = inputs[1][1][0][1]
+        leaf = leaf_at(arr, (n, m), (k, params["c"]))
+        if leaf is None:
+            return PANIC
+        if family == "lend_nested_poke":
+            arr = replace_at(arr, (k, params["c"]), ("arr", [("int", leaf[1][0][1] + 1000)]))
+        return [arr, ("arr", [("int", k + 1)])]
+    if family == "lend_nested_inner_oracle":
+        k = inputs[2][1][0][1]
+        return [arr, ("arr", [("int", k + 1)])] if leaf_at(arr, (n, m), (inputs[1][1], k)) is not None else PANIC
+    if family == "lend_nested_arith":
+        return [arr] if leaf_at(arr, (n, m), (wrap64(inputs[1][1] + 1), 0)) is not None else PANIC
+    if family == "lend2_nested_oracle":
+        k = inputs[1][1][0][1]
+        ok = leaf_at(arr, (n, m), (k, params["c0"])) is not None and leaf_at(arr, (n, m), (k + 1, params["c1"])) is not None
+        return [arr, ("arr", [("int", k + 2)])] if ok else PANIC
+    if family == "use1_oracle":
+        k = inputs[1][1][0][1]
+        return [arr, ("arr", [("int", k + 1)])] if leaf_at(arr, (n,), (k,)) is not None else PANIC
+    if family == "get_nested":
+        leaf = leaf_at(arr, (n, m), (inputs[1][1], inputs[2][1]))
+        return [leaf, arr] if leaf is not None else PANIC
+    if family == "set_nested":
+        i, j = inputs[1][1], inputs[2][1]
+        if leaf_at(arr, (n, m), (i, j)) is None:
+            return PANIC
+        return [replace_at(arr, (i, j), inputs[3])]
+    raise ValueError(family)
+
+
+def grid_nested(family, params, rng, thorough):
+    n, m = params["n"], params.get("m")
+    kind = params["leaf"]
+
+    def leaf(i, j, k=None):
+        tag = 100 * i + 10 * j + (k or 0)
+        return ("res", tag) if kind == "qubit" else ("arr", [("int", tag)]) if kind == "intarr" else ("int", 1000 + tag)
+    if family == "use1_oracle":
+        full = ("arr", [("res", 7 + k) for k in range(n)])
+    elif family == "lend_nested3":
+        full = ("arr", [("arr", [("arr", [leaf(i, j, k) for k in range(params["p"])]) for j in range(m)]) for i in range(n)])
+    else:
+        full = ("arr", [("arr", [leaf(i, j) for j in range(m)]) for i in range(n)])
+    arrays = [full]
+    if family != "use1_oracle":
+        i0, j0 = rng.randrange(n), rng.randrange(m)
+        arrays.append(replace_at(full, (i0, j0), None))     # an inner cell is lent out
+    arrays.append(replace_at(full, (rng.randrange(n),), None))  # an outer cell is lent out
+    out = []
+    I, J = indices(n, thorough), indices(m, thorough) if m is not None else [None]
+    ctr = lambda k: ("arr", [("int", k)])  # noqa: E731
+    for a in arrays:
+        if family in ("lend_nested", "get_nested", "set_nested"):
+            pairs = [(i, j) for i in I for j in J]
+            if not thorough and len(pairs) > 36:
+                pairs = [(i, j) for i in range(n) for j in range(m)] + rng.sample(pairs, 24)
+            for i, j in pairs:
+                out.append([a, ("int", i), ("int", j)] + ([("int", 4242)] if family == "set_nested" else []))
+        elif family == "lend_nested3":
+            trip = [(i, j, k) for i in range(n) for j in range(m) for k in range(params["p"])]
+            trip += [(rng.choice(I), rng.choice(J), rng.choice(indices(params["p"], thorough))) for _ in range(14)]
+            for i, j, k in trip:
+                out.append([a, ("int", i), ("int", j), ("int", k)])
+        elif family in ("lend_nested_oracle", "lend_nested_poke", "lend2_nested_oracle", "use1_oracle"):
+            for k in I:
+                out.append([a, ctr(k)])
+        elif family == "lend_nested_inner_oracle":
+            for i in (I if thorough else sorted(set(range(n)) | {-1, n})):
+                for k in J:
+                    out.append([a, ("int", i), ctr(k)])
+        elif family == "lend_nested_arith":
+            for i in sorted(set(I) | {-2, M63 - 1}):
+                out.append([a, ("int", i)])
+    return out
+
+
 def grid(family, params, rng, thorough):
     """input vectors (lists of python values) for one case"""
+    if family in NESTED:
+        return grid_nested(family, params, rng, thorough)
     n = params["n"]
     linear = family in ("use1", "use2") or params.get("ty") == "qubit"
     base = [("res", k) if linear else ("int", 100 + k) for k in range(n)]
